@@ -1,8 +1,68 @@
-"""C08: decided on spec/Shm.tla (TLC) + replay of TLC behaviours into the real cascade.shm.dataset.Manager."""
+"""C08: decided on spec/Shm.tla (TLC) + replay of TLC behaviours into the real cascade.shm.dataset.Manager; the accounting
+invariant is in addition proved inductive for EVERY capacity and size function on the skeleton spec/ShmAcct.tla (Apalache),
+which spec/Shm.tla refines (TLC, run `refines_acct` of the shm engine)."""
+import re
+import shutil
+import subprocess
+import time
+from concurrent.futures import ThreadPoolExecutor
+
+from ..common import ROOT, MachineryError
 from ..shm_engine import report
 
 LEVEL = "model_checking"
 
+# a skeleton without the admission test must NOT be inductive (the proof is not vacuous)
+CONTROL = ("AAlloc(k)   == ast[k] = \"absent\" /\\ Size[k] <= afree", "AAlloc(k)   == ast[k] = \"absent\"")
+
+
+def _apalache(d, args: list[str], timeout: int = 600) -> tuple[bool, str]:
+    p = subprocess.run(["apalache-mc", "check", *args, f"--out-dir={d}/out", "MC_ShmAcct.tla"], cwd=d, stdout=subprocess.PIPE,
+                       stderr=subprocess.STDOUT, text=True, timeout=timeout)
+    out = p.stdout
+    if "The outcome is: NoError" in out:
+        return True, out
+    if re.search(r"The outcome is: Error|Found \d+ error|invariant .* violated", out):
+        return False, out
+    raise MachineryError("apalache did not reach a verdict:\n" + out[-1500:])
+
+
+def inductive(ctx) -> None:
+    if shutil.which("apalache-mc") is None:
+        raise MachineryError("apalache-mc not on PATH")
+    t0 = time.time()
+    dirs = {}
+    for name in ("base", "step", "control"):
+        d = ctx.scratch / f"apa_{name}"
+        d.mkdir(exist_ok=True)
+        for f in ("ShmAcct.tla", "MC_ShmAcct.tla"):
+            shutil.copy(ROOT / "spec" / f, d / f)
+        dirs[name] = d
+    src = (dirs["control"] / "ShmAcct.tla").read_text()
+    if CONTROL[0] not in src:
+        raise MachineryError("control mutation site not found in spec/ShmAcct.tla")
+    (dirs["control"] / "ShmAcct.tla").write_text(src.replace(CONTROL[0], CONTROL[1]))
+    step = ["--cinit=ConstInit", "--init=IndInit", "--next=ANext", "--inv=Goal", "--length=1"]
+    jobs = {"base": ["--cinit=ConstInit", "--init=AInit", "--next=ANext", "--inv=Goal", "--length=0"], "step": step, "control": step}
+    with ThreadPoolExecutor(max_workers=3) as tp:
+        res = dict(zip(jobs, tp.map(lambda n: _apalache(dirs[n], jobs[n]), jobs)))
+    if not res["base"][0]:
+        ctx.violate("apalache:Init_does_not_establish_IndInv", "Apalache: the initial state of spec/ShmAcct.tla violates the accounting invariant",
+                    {"apalache": res["base"][1][-3000:]}, clause="Accounting")
+    if not res["step"][0]:
+        ctx.violate("apalache:IndInv_not_inductive", "Apalache: a step of spec/ShmAcct.tla leaves the accounting invariant "
+                    "(for some capacity / sizes)", {"apalache": res["step"][1][-3000:]}, clause="Accounting")
+    if res["control"][0]:
+        raise MachineryError("vacuous proof: the skeleton without the admission test is also reported inductive")
+    ctx.coverage["unbounded_accounting_proof"] = {
+        "tool": "apalache-mc 0.58 (SMT, inductive: Init => IndInv, IndInv /\\ Next => IndInv' /\\ NoOverdraw /\\ FreeSane)",
+        "quantified_over": "every capacity in Nat, every size function [4 keys -> Nat \\ {0}], every state satisfying IndInv",
+        "negative_control": "skeleton without the admission test is rejected", "wall_s": round(time.time() - t0, 1),
+        "link": "TLC run refines_acct: spec/Shm.tla (outside the recorded known patterns) refines spec/ShmAcct.tla",
+    }
+    ctx.log(f"apalache: accounting invariant inductive on ShmAcct (base, step, control) in {time.time()-t0:.0f}s")
+
 
 def run(ctx):
     report(ctx, "C08")
+    inductive(ctx)
